@@ -22,6 +22,7 @@ from ..report import AnalysisError
 from ..slices import Affine
 from .. import stagger, contours
 from ..stagger import StencilError
+from ..model import canon as K
 
 MESH = "hypnotoad/core/mesh.py"
 EQ = "hypnotoad/core/equilibrium.py"
@@ -30,7 +31,7 @@ LOCS = ("centre", "xlow", "ylow", "corners")
 
 
 def T(mod, node):
-    return " ".join(strip_comments(mod.text(node)).split())
+    return mod.code(node)
 
 
 def run(rep, tier):
@@ -71,7 +72,7 @@ def r1(prog, rep):
                 # d = numpy.array(self.contours[2*i+1].get_distance(...)) ; cbelow = nb.contours[...]; dbelow = cbelow.get_distance()
                 for n in ast.walk(v):
                     if isinstance(n, ast.Subscript) and isinstance(n.value, ast.Attribute) and n.value.attr == "contours":
-                        who = "self" if is_self_attr(n.value) else ("lower" if '"lower"' in txt else ("upper" if '"upper"' in txt else "?"))
+                        who = "self" if is_self_attr(n.value) else ("lower" if K('"lower"') in txt else ("upper" if K('"upper"') in txt else "?"))
                         try:
                             arrays[s.targets[0].id] = (who, contours.contour_index(n.slice, lv))
                         except StencilError:
@@ -183,13 +184,13 @@ def r2(prog, rep):
         got = seen.get(loc, [])
         off = [g for g in got if g[0] == "Sub"]
         acc = [g for g in got if g[0] == "Add"]
-        ok = len(off) == 1 and off[0][1] == "c.startInd" and off[0][2] == par and off[0][3] == rng and off[0][4] and off[0][5] == "i,:"
+        ok = len(off) == 1 and off[0][1] == "c.startInd" and off[0][2] == par and off[0][3] == rng and off[0][4] and off[0][5] == K("i,:")
         rep.ob("R2", "poloidal_distance.%s is offset by the distance at startInd of contour %d*i+%d" % (loc, par[0], par[1]), ok, f.site(), str(off), key="pd/offset/" + loc)
-        ok = len(acc) == 1 and acc[0][1] == pts and acc[0][2] == par and acc[0][3] == rng and acc[0][4] and acc[0][5] == "i,:"
+        ok = len(acc) == 1 and acc[0][1] == pts and acc[0][2] == par and acc[0][3] == rng and acc[0][4] and acc[0][5] == K("i,:")
         rep.ob("R2", "poloidal_distance.%s accumulates points [%s] of contour %d*i+%d" % (loc, pts, par[0], par[1]), ok, f.site(), str(acc), key="pd/accumulate/" + loc)
     # start, hand-over
     first = [s for s in f.node.body if isinstance(s, ast.If)][0]
-    rep.ob("R2", "only the first region of a y-group starts a chain", T(mod, first.test) == "self.yGroupIndex != 0" and isinstance(first.body[0], ast.Return), f.site(first), "", key="pd/start")
+    rep.ob("R2", "only the first region of a y-group starts a chain", T(mod, first.test) == K("self.yGroupIndex != 0") and isinstance(first.body[0], ast.Return), f.site(first), "", key="pd/start")
     hand = {}
     for s in walk_own(f.node):
         if isinstance(s, ast.Assign) and isinstance(s.targets[0], ast.Subscript):
@@ -205,16 +206,16 @@ def r2(prog, rep):
         ok = got is not None and got[0] == srcloc and got[1] == Affine(0, 1)
         rep.ob("R2", "hand-over: next region's poloidal_distance.%s starts from %s at logical y = ny" % (loc, srcloc), ok, f.site(), str(got), key="pd/handover/" + loc)
     src = mod.code(f.node)
-    rep.ob("R2", "the chain stops at a missing neighbour or on return to the first region", 'if(next_regionisNone)or(next_regionisself):' in src and "region=next_region" in src, f.site(), "", key="pd/stop")
+    rep.ob("R2", "the chain stops at a missing neighbour or on return to the first region", K('ifnext_regionisNoneornext_regionisself:') in src and K("region=next_region") in src, f.site(), "", key="pd/stop")
     tot = {}
     for s in walk_own(f.node):
-        if isinstance(s, ast.If) and T(mod, s.test) == 'self.connections["lower"] is not None':
+        if isinstance(s, ast.If) and T(mod, s.test) == K('self.connections["lower"] is not None'):
             for st in s.body:
                 if isinstance(st, ast.Assign):
                     la = stagger.loc_array(st.targets[0])
                     if la and T(mod, la[0]) == "self.total_poloidal_distance":
                         tot[la[1]] = mod.code(st.value)
-    ok = tot.get("centre") == "region.poloidal_distance.ylow[:,-1]" and tot.get("xlow") == "region.poloidal_distance.corners[:,-1]"
+    ok = tot.get("centre") == K("region.poloidal_distance.ylow[:,-1]") and tot.get("xlow") == K("region.poloidal_distance.corners[:,-1]")
     rep.ob("R2", "total_poloidal_distance is the last region's value at y=ny, only for periodic chains", ok and len(tot) == 2, f.site(), str(tot), key="pd/total")
 
 
@@ -224,9 +225,9 @@ def r3(prog, rep):
     if f is None:
         raise AnalysisError("FineContour.calcDistance not found")
     src = [mod.code(s) for s in f.node.body]
-    ok = "deltaSquared=(self.positions[1:]-self.positions[:-1])**2" in src and "self.distance[1:]=numpy.cumsum(numpy.sqrt(numpy.sum(deltaSquared,axis=1)))" in src
+    ok = K("deltaSquared=(self.positions[1:]-self.positions[:-1])**2") in src and K("self.distance[1:]=numpy.cumsum(numpy.sqrt(numpy.sum(deltaSquared,axis=1)))") in src
     rep.ob("R3", "fine-contour distance is the cumulative sum of chord lengths between consecutive points, starting at 0", ok, f.site(), "", key="dist/cumsum")
-    zero = any("self.distance=numpy.zeros(self.positions.shape[0])" in mod.code(s) for s in f.node.body)
+    zero = any(K("self.distance=numpy.zeros(self.positions.shape[0])") in mod.code(s) for s in f.node.body)
     rep.ob("R3", "distance[0] == 0 (array allocated as zeros, entries 1.. overwritten)", zero, f.site(), "", key="dist/zero")
     g = mod.funcs.get("FineContour.getDistance")
     if g is None:
